@@ -455,3 +455,16 @@ def replay(data):
     if why:
         print("still wrong:", why)
     return why is None
+
+
+# --- translated small functions (tools/gens/gen_pure.py): Props/T_context.v proves the regenerated Python functions
+# equal to the hand models this property's theorems are about; explore_t cross-checks the translator itself
+import t_check  # noqa: E402
+PROP_FILES = PROP_FILES + ["Props/T_context.v"]
+RUN_FILES = RUN_FILES + ["Run/TRunContext.v"]
+_explore_without_t = explore
+
+
+def explore(rep, br, tier, seed):
+    _explore_without_t(rep, br, tier, seed)
+    t_check.explore_t(rep, tier, seed, pid=ID, only=["context"])
